@@ -169,7 +169,7 @@ theorem callNative_split (v p : Value) (s1 s2 : Span) :
 theorem callNative_toUpper (v : Value) (s1 : Span) :
     callNative env .toUpper [v] [s1] σ = (castStr v s1 σ).bind fun s => .ok (.str (StrOps.toUpper env s), σ) := rfl
 theorem callNative_toLower (v : Value) (s1 : Span) :
-    callNative env .toLower [v] [s1] σ = (castStr v s1 σ).bind fun s => .ok (.str (StrOps.toLower env s), σ) := rfl
+    callNative env .toLower [v] [s1] σ = (castStr v s1 σ).bind fun s => .ok (.str (StrOps.toLowerSigma env env.caseIgn env.cased s), σ) := rfl
 theorem callNative_trim (v : Value) (s1 : Span) :
     callNative env .trim [v] [s1] σ = (castStr v s1 σ).bind fun s => .ok (.str (StrOps.trim env.isWs s), σ) := rfl
 theorem callNative_contains (v p : Value) (s1 s2 : Span) :
